@@ -71,7 +71,7 @@ Proof.
   unfold refines in H. simpl setpath in H.
   destruct H as (h' & A' & u & Hu & fuel & Ha).
   - intros a off [E|[]]. inversion E. auto.
-  - apply orep_arr. exists 0, 0, 1, 1, [HNull], [[]]. repeat split; simpl; auto. right. repeat split; simpl; auto.
+  - apply orep_arr. exists 0, 0, 1, 1, [HNull], [[]]. repeat split; simpl; auto; try (right; repeat split; simpl; auto).
   - repeat constructor. simpl. tauto.
   - exists 3. reflexivity.
   - repeat constructor.
@@ -134,3 +134,63 @@ Proof.
   intro H. apply abs_update_refuted_shared. intros p h ps v j n jn Hwf Hv Hn Hns. apply H; auto.
   exists (S (depth jn)). eapply orep_abs; eauto.
 Qed.
+
+(* ---- D11 (repaired by 73ac0b6): {"a":[1,2,3]} | (.a[0],.a,.a[2]) |= (if type=="array" then .[0:1] else 10 end).
+   After the first path the reduction owns a copy of the object (address 2) and of the array (address 1, cells
+   [10,2,3]); the second path hands that array to the body, which returns the PREFIX SLICE .[0:1] of it: same
+   pointer, len 1, cap 3, so the allocator still owns it and the cells 1,2 of the backing array keep 2 and 3.
+   The third path writes index 2: in-place growth.  The code before the fix exposed the stale 2; the current
+   code clears the exposed cell and gives what the defining reduction gives.  The whole reduction is run from
+   the input (three updates, the body applied by hand between them). ---- *)
+Definition key_a : key := [97%N].
+Definition h11 : heap := [OArr [HNum 1; HNum 2; HNum 3]; OMap [(key_a, HArr 0 0 3 3)]].
+Definition body11 (h : heap) (x : hval) : hval :=
+  match x with HArr _ _ _ _ => reslice false x 0 1 | _ => HNum 10 end.
+Definition bodyv11 (x : jv) : jv := match x with JArr l => JArr (firstn 1 l) | _ => JNum 10 end.
+
+Definition run11 (cfg : config) : option (heap * hval) :=
+  let step (st : option (heap * alloc * hval)) (p : path) :=
+    match st with
+    | Some (h, A, v) =>
+        match h_getpath h v p with
+        | Some x => update cfg h A v p (body11 h x)
+        | None => None
+        end
+    | None => None
+    end in
+  match fold_left step [[PK key_a; PI 0%Z]; [PK key_a]; [PK key_a; PI 2%Z]] (Some (h11, Some [], HMap 1)) with
+  | Some (h, _, v) => Some (h, v)
+  | None => None
+  end.
+
+Definition ref11 : option jv :=
+  fold_left (fun acc p => match acc with
+                          | Some j => match getpath j p with Some x => setpath j p (bodyv11 x) | None => None end
+                          | None => None end)
+            [[PK key_a; PI 0%Z]; [PK key_a]; [PK key_a; PI 2%Z]]
+            (Some (JObj [(key_a, JArr [JNum 1; JNum 2; JNum 3])])).
+
+Example D11_regression :
+  let out cfg := match run11 cfg with Some (h, v) => abs 8 h v | None => None end in
+  out old_growth = Some (JObj [(key_a, JArr [JNum 10; JNum 2; JNum 10])]) /\
+  out current = Some (JObj [(key_a, JArr [JNum 10; JNull; JNum 10])]) /\
+  ref11 = Some (JObj [(key_a, JArr [JNum 10; JNull; JNum 10])]) /\
+  (* the input is left alone by both *)
+  (forall cfg, match run11 cfg with Some (h, _) => abs 8 h (HMap 1) | None => None end =
+               Some (JObj [(key_a, JArr [JNum 1; JNum 2; JNum 3])])).
+Proof.
+  cbv zeta. split; [vm_compute; reflexivity|]. split; [vm_compute; reflexivity|]. split; [vm_compute; reflexivity|].
+  intros [[] []]; vm_compute; reflexivity.
+Qed.
+
+(* the single native step: the state after the second path (the allocated array seen through a prefix header
+   with stale hidden cells) violates the hidden-cells-are-nil clause of [orep]; the old growth exposes the
+   stale cell, the current one clears it *)
+Example D11_step :
+  let h := [OArr [HNum 10; HNum 2; HNum 3]] in
+  let run cfg := match update cfg h (Some [PArr 0 0]) (HArr 0 0 1 3) [PI 2%Z] (HNum 10) with
+                 | Some (h', _, u) => Some (h', u) | None => None end in
+  run old_growth = Some ([OArr [HNum 10; HNum 2; HNum 10]], HArr 0 0 3 3) /\
+  run current = Some ([OArr [HNum 10; HNull; HNum 10]], HArr 0 0 3 3) /\
+  setpath (JArr [JNum 10]) [PI 2%Z] (JNum 10) = Some (JArr [JNum 10; JNull; JNum 10]).
+Proof. vm_compute. repeat split. Qed.
